@@ -548,6 +548,11 @@ def corpus():
             "EQUILIBRIUM_PHASES 1\n Calcite 0 0.001\n  -force_equality true\nINCREMENTAL_REACTIONS false\n")
     meta = {"pps": pf, "stages": [pf], "nsteps": 4, "incremental": False, "exch": None, "surf": None, "ss": None, "hp": False, "temp": 25.0}
     out.append({"id": "corpus-force-exhausted-in-steps", "db": "phreeqc.dat", "text": text + _punch(pf), "flags": [], "meta": meta})
+    # finding F-C03-4: a force_equality phase with plenty of material next to a competing phase of the same elements
+    pf = [_pp("Aragonite", 0, 0.03, force=True), _pp("Calcite", 0, 0)]
+    text = ("SOLUTION 1\n pH 7\n Na 10\n Cl 10 charge\n Ca 1\n C(4) 1\nEQUILIBRIUM_PHASES 1\n Aragonite 0 0.03\n  -force_equality true\n Calcite 0 0\n")
+    meta = {"pps": pf, "exch": None, "surf": None, "ss": None, "hp": False, "temp": 25.0}
+    out.append({"id": "corpus-F-C03-4", "db": "phreeqc.dat", "text": text + _punch(pf), "flags": [], "meta": meta})
     # finding F-C03-3: a force_equality phase that starts with exactly 0 mol in an undersaturated solution
     pf = [_pp("Calcite", 0, 0, force=True)]
     text = "SOLUTION 1\n pH 7\n Na 1\n Cl 1 charge\n Ca 0.1\n C(4) 0.1\nEQUILIBRIUM_PHASES 1\n Calcite 0 0\n  -force_equality true\n"
@@ -702,7 +707,9 @@ def build_case(meta, row, init_rows=None, dump=None, more_rows=()):
         pps.append("PP %s %s %s %s %s" % (KIND[kind_of(p)], q(p["target"]), q(p["init"]), q(m), q(s)))
         items.append(("pp", p["name"], kind_of(p), p["target"], p["init"], m, s))
     # follow-up calculations (model reused): the phases of each later stage, and the site totals again
-    for stage, r2 in zip((meta.get("stages") or [])[1:], more_rows):
+    prev_ref = meta.get("site_ref_prev") or []
+    rows_seq = [row] + list(more_rows)
+    for idx2, (stage, r2) in enumerate(zip((meta.get("stages") or [])[1:], more_rows), start=1):
         for k, p in enumerate(stage):
             m, s = r2.get("eq%d" % k), r2.get("si%d" % k)
             if not (_num(m) and _num(s)):
@@ -721,6 +728,8 @@ def build_case(meta, row, init_rows=None, dump=None, more_rows=()):
                 d0 = mm["sites"][nm]
                 dq = q(Fraction(*mm["sites_exact"][nm])) if "sites_exact" in mm else q(d0)
                 i0 = (init_rows.get("i_exch" if what == "exch" else "i_surf") or {}).get(col)
+                if idx2 < len(prev_ref) and prev_ref[idx2]:
+                    i0 = rows_seq[idx2 - 1].get(col)   # INCREMENTAL_REACTIONS: this step starts from the reactant saved by the previous step
                 if _num(i0) and i0 > 0:
                     d0, dq = i0, q(i0)      # the sites of the stored (equilibrated) reactant this calculation starts from
                 dest.append("SITE %s %s" % (dq, q(f)))
@@ -842,9 +851,10 @@ def py_verdict(items):
 F1_KEY = "C03:precipitate_only+diffuse_layer:precipitated-amount-made-inert-by-repeated-model-calls"
 F2_KEY = "C03:precipitate_only+element-absent:stale-phase-reaction-of-earlier-model:amount-lost"
 F3_KEY = "C03:force_equality:phase-starting-at-exactly-0-mol-undersaturated:completes-off-target-without-error"
+F4_KEY = "C03:force_equality:phase-consumed-by-competing-phase-of-same-elements:completes-off-target-after-retries"
 
 
-def finding_key(job, meta, bad):
+def finding_key(job, meta, bad, items_all=()):
     """Stable identity of a failure.  One class is recognised by its configuration and signature (see notes/C03.md,
     finding F-C03-1); everything else is keyed by the input itself."""
     surf = meta.get("surf")
@@ -857,6 +867,20 @@ def finding_key(job, meta, bad):
     # at 0 mol and ends BELOW its target (a forced phase that had material and ran out is a different failure)
     if bad and all(b[0] == "pp:force_equality" and len(b) > 2 and b[2][4] == 0 and b[2][5] == 0 and b[2][6] < b[2][3] for b in bad):
         return F3_KEY
+    # signature of F-C03-4 only: every failing item is a force_equality phase that HAD material, ends at 0 mol below its target,
+    # and the same calculation has another phase made of exactly the same elements (a competing polymorph, e.g. Aragonite
+    # forced next to Calcite) that ends present
+    if bad and all(b[0] == "pp:force_equality" and len(b) > 2 and b[2][4] > 0 and b[2][5] == 0 and b[2][6] < b[2][3] for b in bad):
+        els = {n: e for n, e in db_phases(job["db"])}
+        okc = True
+        for b in bad:
+            nm = b[2][1]
+            base, lab = (nm.split(" [", 1) + [""])[:2]
+            comp = [it for it in items_all if it[0] == "pp" and it[1] != nm and (it[1].split(" [", 1) + [""])[1] == lab
+                    and els.get(it[1].split(" [", 1)[0]) == els.get(base) and els.get(base) and it[5] > 0]
+            okc = okc and bool(comp)
+        if okc:
+            return F4_KEY
     # signature of F-C03-2 only: in a LATER calculation of a run a precipitate_only phase whose element is not in the
     # system (SI reported as -99.99 / -999: "Element not present") ends below its initial amount
     if bad and len((meta.get("stages") or [1])) > 1 and all(
@@ -909,7 +933,7 @@ def flatten_steps(meta, react):
     ss_stages = meta.get("ss_stages") or [meta["ss"]] * len(stages)
     if nsteps == 1:
         return meta
-    flat, ssf = [], []
+    flat, ssf, prevref = [], [], []
     r = 0
     for si, stage in enumerate(stages):
         for t in range(nsteps):
@@ -926,6 +950,7 @@ def flatten_steps(meta, react):
                         p2["init"] = prev
                 pk.append(p2)
             flat.append(pk)
+            prevref.append(bool(meta.get("incremental")) and t > 0)
             ssm = ss_stages[si] if si < len(ss_stages) else None
             base = ssm if ssm is not None else (meta["ss"] if (si == 0) else None)
             if base is not None:
@@ -940,6 +965,7 @@ def flatten_steps(meta, react):
     m2["stages"] = flat
     m2["ss_stages"] = ssf
     m2["pps"] = flat[0]
+    m2["site_ref_prev"] = prevref
     return m2
 
 
@@ -1003,7 +1029,7 @@ def evaluate(ctx, jobs):
         ctx.case(fp, nontrivial=any(it[0] != "pp" or it[5] > 0 for it in items), sample={"database": j["db"], "input": j["text"][:600], "reported": {k: v for k, v in row.items() if isinstance(v, float)}})
         if not ok:
             bad = py_verdict(items) or [("?", "case rejected by the verified checker")]
-            key = finding_key(j, m, bad)
+            key = finding_key(j, m, bad, items)
             ctx.violation(key, "C03 violated: " + " | ".join(b[1] for b in bad),
                           {"kind": "input", "database": j["db"], "input_text": j["text"], "meta": j.get("meta_full", m),
                            "observed": {k: (v if not isinstance(v, float) else repr(v)) for k, v in row.items()},
